@@ -370,6 +370,10 @@ pub struct Model {
     pub exact_updates: bool,
     #[serde(skip)]
     pub inplace_dirty: bool,
+    /// checkpoints (flush / VACUUM / reopen) so far, and the value it had when each row got its delete mark
+    pub ckpt_epoch: u32,
+    #[serde(skip)]
+    pub delete_epoch: BTreeMap<(usize, usize), u32>,
     /// transactions with an in-place-update hazard pending (KF-update-in-place)
     pub pending_update: BTreeSet<Tx>,
     /// transactions that re-inserted a unique key they deleted themselves (KF-reinsert-overwrites-index-entry
@@ -426,6 +430,8 @@ impl Model {
             enabled_hazards: enabled.clone(),
             exact_updates: false,
             inplace_dirty: false,
+            ckpt_epoch: 0,
+            delete_epoch: BTreeMap::new(),
             pending_update: BTreeSet::new(),
             pending_reinsert: BTreeSet::new(),
             reopen_count: 0,
@@ -809,7 +815,13 @@ impl Model {
                             if d != t {
                                 let id = if self.txs[d as usize].state == TxState::Aborted { KF_ABORTED_DELETE } else { KF_NO_WW_CONFLICT };
                                 let only_the_mark = !r.versions.iter().any(|(x, _)| *x != d && self.concurrent(t, *x));
-                                if only_the_mark && self.quirk(id) {
+                                // The crash checks follow the quirk only where restart recovery agrees with the running
+                                // engine: the first deleter has COMMITTED and no checkpoint lies between its delete and this
+                                // one (recovery then undoes the loser first and redoes the committed delete). In the other
+                                // cases recovery contradicts what the running engine showed - a consequence of the same listed
+                                // finding - and the history stays unjudged.
+                                let crash_ok = matches!(self.txs[d as usize].state, TxState::Committed(_)) && self.delete_epoch.get(&(ti, i)) == Some(&self.ckpt_epoch);
+                                if only_the_mark && (self.exact_updates || crash_ok) && self.quirk(id) {
                                     n += 1;
                                     continue;
                                 }
@@ -826,6 +838,7 @@ impl Model {
                             }
                         }
                         self.tables[ti].rows[i].xmax = Some(t);
+                        self.delete_epoch.insert((ti, i), self.ckpt_epoch);
                         n += 1;
                     }
                 }
@@ -1044,9 +1057,18 @@ impl Model {
     /// For `Audit` the answer is one Exp::Rows per committed table (in name order).
     pub fn apply(&mut self, op: &Op) -> Vec<Exp> {
         match op {
-            Op::Vacuum => self.maint_trail.push('V'),
-            Op::Reopen => self.maint_trail.push('R'),
-            Op::Flush => self.maint_trail.push('F'),
+            Op::Vacuum => {
+                self.maint_trail.push('V');
+                self.ckpt_epoch += 1;
+            }
+            Op::Reopen => {
+                self.maint_trail.push('R');
+                self.ckpt_epoch += 1;
+            }
+            Op::Flush => {
+                self.maint_trail.push('F');
+                self.ckpt_epoch += 1;
+            }
             Op::Audit | Op::Analyze => {}
             Op::Auto(s) | Op::In(_, s) if s.is_read() => {}
             _ => self.maint_trail.clear(),
